@@ -106,6 +106,25 @@ let dispatch op =
        | 2 -> let d = rd_zlist () in out_str (write_script names g d)
        | _ -> let c = rd_int () in let init = rd_n c (fun () -> let a = rd_nat () in let b = rd_nat () in (a, b)) in
               (match oconstruct g init with Ok o -> out_str (write_orientation names g o) | Err -> out "err"))
+  | "dictwrite" -> (* kind graph [orientation pairs]: the dictionary form in vertex ids *)
+      let kind = rd_int () in let g = rd_graph () in
+      let el = dedge_list g in out_int (List.length el); List.iter (fun ((a, b), k) -> out_nat a; out_nat b; out_z k) el;
+      if kind = 3 then begin
+        let c = rd_int () in let init = rd_n c (fun () -> let a = rd_nat () in let b = rd_nat () in (a, b)) in
+        (match oconstruct g init with Ok o -> let ps = odict_pairs g o in out_int (List.length ps); List.iter (fun (a, b) -> out_nat a; out_nat b) ps | Err -> out "err") end
+  | "dictread" -> (* kind nnames names nedges (str str z)* payload: from_dict of a well-typed dictionary *)
+      let kind = rd_int () in let n = rd_int () in let names = rd_n n rd_str in
+      let ne = rd_int () in let edges = rd_n ne (fun () -> let a = rd_str () in let b = rd_str () in let k = rd_z () in ((a, b), k)) in
+      let gd = { d_vertices = names; d_edges = edges } in
+      let out_g names (gs : gstate) = out "ok"; out_int (List.length names); List.iter out_str names; List.iter (fun r -> List.iter out_z r) gs.adj; out ";" in
+      (match kind with
+       | 0 -> (match graph_from_dict gd with None -> out "none" | Some (names, gs) -> out_g names gs)
+       | 1 -> let np = rd_int () in let ps = rd_n np (fun () -> let a = rd_str () in let k = rd_z () in (a, k)) in
+              (match divisor_from_dict (gd, ps) with None -> out "none" | Some ((names, gs), d) -> out_g names gs; List.iter out_z d)
+       | 2 -> let np = rd_int () in let ps = rd_n np (fun () -> let a = rd_str () in let k = rd_z () in (a, k)) in
+              (match script_from_dict (gd, ps) with None -> out "none" | Some ((names, gs), d) -> out_g names gs; List.iter out_z d)
+       | _ -> let np = rd_int () in let ps = rd_n np (fun () -> let a = rd_str () in let b = rd_str () in (a, b)) in
+              (match orientation_from_dict (gd, ps) with None -> out "none" | Some ((names, gs), o) -> out_g names gs; List.iter (fun r -> List.iter out_z r) o.dir))
   | "nameok" -> let s = rd_str () in out_bool (name_ok s)
   | "pyint" -> let s = rd_str () in (match py_int s with None -> out "none" | Some z -> out_z z)
   | "indep" -> let g = rd_graph () in out_nat (indep_number g); out_z (min_degree g); out_bool (is_complete_simple g)
